@@ -345,11 +345,13 @@ const CGS_QUERIES: [&str; 30] = [
 
 /// Unit lists whose members already carry a prefix, with values large and small against them:
 /// each entry's printed numeral x printed unit must be the entry's own part.
-const LIST_QUERIES: [&str; 22] = [
+const LIST_QUERIES: [&str; 28] = [
     "5000 s -> ms;us", "123456789 s -> ms;us", "2000 m -> mm;um", "0.002 s -> ms;us", "5000000 m -> km;m;mm", "1e9 s -> hour;min;s", "12345.678 kg -> kg;g;mg",
     "1e7 g -> g;mg", "3 GiB -> MiB;KiB;byte", "1e12 byte -> kB;byte", "7.5 mile -> mile;yard;ft;inch", "1e-7 m -> um;nm", "1e15 s -> year;day;s", "5000 m -> m;mm",
     // members in ascending or no particular order: each numeral still belongs to the name printed next to it
     "90 min -> min;hour", "2.5 ft -> inch;ft", "100000 s -> hour;day;s;min", "5000 s -> s;min;hour", "1 mile -> inch;mile;ft", "100 inch -> ft;yard;inch", "3 day -> min;day;hour", "7 kg -> g;kg",
+    // values that are floats, of either sign
+    "sqrt(2) hour -> hour;min", "-sqrt(2) hour -> hour;min", "-sqrt(10) day -> day;hour;min;s", "-(2^0.5) mile -> mile;ft;inch", "sqrt(7) kg -> kg;g", "-exp(1) hour -> hour;min;s",
 ];
 
 const SUBST_COUNTS: [&str; 3] = ["1", "12", "(1|4)"];
@@ -563,10 +565,24 @@ impl Space for C06 {
                 Ok(QueryReply::Duration(d)) => d.raw.raw_value.as_ref().and_then(|r| numeric_to_rat(&r.value).map(|v| (v, dims_of(r)))),
                 _ => None,
             };
+            let source_f: Option<f64> = match eval_q(ctx, q.split(" -> ").next().unwrap_or("")) {
+                Ok(QueryReply::Number(p)) => p.raw_value.as_ref().map(|r| r.value.to_f64()),
+                Ok(QueryReply::Duration(d)) => d.raw.raw_value.as_ref().map(|r| r.value.to_f64()),
+                _ => None,
+            };
             let mut total: Option<Rat> = Some(rat(0, 1));
+            let mut total_f: Option<f64> = Some(0.0);
             match eval_q(ctx, q) {
                 Ok(QueryReply::UnitList(l)) => {
                     for e in &l.list {
+                        // the same sum in floating point, for values that are floats
+                        match (&e.raw_value, total_f) {
+                            (Some(r), Some(t)) => {
+                                let u = r.unit.iter().next().and_then(|(k, _)| ctx.lookup(&k.to_string())).map(|uv| uv.value.to_f64());
+                                total_f = u.map(|u| t + r.value.to_f64() * u);
+                            }
+                            _ => total_f = None,
+                        }
                         let raw = match &e.raw_value {
                             Some(r) => r,
                             None => {
@@ -593,6 +609,13 @@ impl Space for C06 {
                             None => {
                                 total = None;
                                 out = out.viol("unit-list entry's own unit does not resolve", format!("{}: {:?}", q, uname))
+                            }
+                        }
+                    }
+                    if total.is_none() || source.is_none() {
+                        if let (Some(t), Some(sv)) = (total_f, source_f) {
+                            if !((t - sv).abs() <= 1e-9 * sv.abs()) {
+                                out = out.viol("the entries of a unit list do not add up to the value converted (unit-list sum)", format!("`{}`: the entries add up to {:e} base units, the value is {:e}", q, t, sv));
                             }
                         }
                     }
